@@ -803,6 +803,10 @@ def _is_first_input_passthrough(node: ir.Node) -> bool:
 
 
 def _is_elementwise_node(node: ir.Node) -> bool:
+    # Only standard-domain operators: an @onnx_function call node may carry the
+    # same op_type ("Abs", "Relu", ...) in its own domain without being point-wise.
+    if (getattr(node, "domain", "") or "") != "":
+        return False
     return (
         node.op_type in ELEMENTWISE_UNARY_OPS or node.op_type in ELEMENTWISE_BINARY_OPS
     )
